@@ -1,4 +1,4 @@
-import RlibModel.Model.Reader
+import RlibModel.Model.ReaderMulti
 /-!
 Line-protocol driver for engine `io`, reader half (property C08).
 
@@ -13,6 +13,11 @@ Answer: `M <model results of the in-domain prefix>[ ~] | V <the same> | S <spec 
 the model runs on the event list with the given BUF, the spec on the plain input bytes. The in-domain prefix
 (`domPrefix`) ends at the first operation that reads an invalid / out-of-range integer token or a token when none
 is left; ` ~` marks that the script goes on outside the property's domain.
+
+Several live readers: `<BUF> <hex0> <sched0> + <hex1> <sched1> [+ …] ; <k>.<op> ; <k>.new ; <k>.drop ; <k>.mv ; …`
+(`k` = reader index; a reader is created by `new` or by its first step, nothing may follow its `drop`; `new`, `drop`,
+`mv` print `.`). Model = `runMulti` on `initMulti BUF …` (one independent state per reader), spec = `specMulti` on the
+plain inputs, prefix = `domPrefixM`.
 -/
 open Rlib Rlib.Reader
 
@@ -108,6 +113,64 @@ def showTrace (rs : List Res) : String :=
 
 def invalid : String := answer3 "INVALID" "INVALID" "any"
 
+/-- `(hex, sched)` groups of a multi-reader header, separated by `+` -/
+def parseGroups : List String → Option (List (Sched × List UInt8))
+  | [h, s] => match parseHexBytes h, parseSched s with
+    | some d, some sc => some [(sc, d)]
+    | _, _ => none
+  | h :: s :: "+" :: t => match parseHexBytes h, parseSched s, parseGroups t with
+    | some d, some sc, some r => some ((sc, d) :: r)
+    | _, _, _ => none
+  | _ => none
+
+/-- a step of a multi-reader script and its lifecycle kind (0 = call, 1 = new, 2 = drop, 3 = mv) -/
+def parseMOp (s : String) : Option (MOp × Nat) :=
+  match s.splitOn "." with
+  | [ks, r] =>
+    if ks.isEmpty || !ks.all Char.isDigit then none else
+    match ks.toNat? with
+    | none => none
+    | some k =>
+      if r = "new" then some (.life k, 1)
+      else if r = "drop" then some (.life k, 2)
+      else if r = "mv" then some (.life k, 3)
+      else (parseOp r).map (fun op => (.run k op, 0))
+  | _ => none
+
+/-- lifecycle check (the harness has the same one): index in range, `new` only on a reader that does not exist yet,
+    nothing after `drop`. States: 0 = not created, 1 = live, 2 = dropped. -/
+def lifeOk : List (MOp × Nat) → List Nat → Bool
+  | [], _ => true
+  | (mop, kind) :: t, st =>
+    let k := match mop with | .run k _ => k | .life k => k
+    match st[k]? with
+    | none => false
+    | some 2 => false
+    | some c =>
+      if kind = 1 then (c == 0 && lifeOk t (st.set k 1))
+      else if kind = 2 then lifeOk t (st.set k 2)
+      else lifeOk t (st.set k 1)
+
+def showMRes : MRes → String
+  | none => "."
+  | some r => showRes r
+
+def showMTrace (rs : List MRes) : String :=
+  if rs.isEmpty then "-" else " ".intercalate (rs.map showMRes)
+
+def handleMulti (bufS : String) (groups : List String) (ops : List String) : String :=
+  match bufS.toNat?, parseGroups groups, ops.mapM parseMOp with
+  | some BUF, some ins, some steps =>
+    if BUF = 0 || ins.length < 2 || !lifeOk steps (ins.map (fun _ => 0)) then invalid else
+    let script := steps.map (·.1)
+    let inputs := ins.map (·.2)
+    let model := runMulti (maxLen inputs + 1) script (initMulti BUF ins)
+    let spec := specMulti script inputs
+    let n := domPrefixM script inputs
+    let mark := if n < script.length then " ~" else ""
+    answer (showMTrace (model.take n) ++ mark) (showMTrace (spec.take n) ++ mark)
+  | _, _, _ => invalid
+
 def handle (line : String) : String :=
   match splitOps line with
   | [] => badLine line
@@ -116,6 +179,7 @@ def handle (line : String) : String :=
       | [a, b, c, "full"] => ([a, b, c], true)
       | ts => (ts, false)
     match hdrToks with
+    | bufS :: h0 :: s0 :: "+" :: more => handleMulti bufS (h0 :: s0 :: "+" :: more) ops
     | [bufS, hexS, schedS] =>
       match bufS.toNat?, parseHexBytes hexS, parseSched schedS, ops.mapM parseOp with
       | some BUF, some input, some sched, some script =>
